@@ -158,6 +158,22 @@ pub proof fn lemma_lit_len(l: &str)
     lemma_utf8_slice(l, 0, l@.len() as int);
 }
 
+pub proof fn lemma_byte_len_concat(a: Seq<char>, b: Seq<char>)
+    ensures byte_len(a + b) == byte_len(a) + byte_len(b)
+{
+    lemma_byte_len_is_encode_len(a + b); lemma_byte_len_is_encode_len(a); lemma_byte_len_is_encode_len(b);
+    encode_utf8_concat(a, b);
+}
+
+/// an all-ASCII sequence occupies one byte per character
+pub proof fn lemma_ascii_byte_len(t: Seq<char>, n: int)
+    requires 0 <= n <= t.len(), forall|i: int| 0 <= i < n ==> (#[trigger] t[i] as u32) < 128
+    ensures byte_off(t, n) == n
+    decreases n
+{
+    if n > 0 { lemma_ascii_byte_len(t, n - 1); assert((t[n - 1] as u32) < 128); }
+}
+
 // ---------- char classes ----------
 pub open spec fn is_ascii_alpha(c: char) -> bool { ('a' <= c && c <= 'z') || ('A' <= c && c <= 'Z') }
 pub open spec fn is_ascii_digit(c: char) -> bool { '0' <= c && c <= '9' }
